@@ -81,6 +81,8 @@ def gen_run(rng: random.Random, quick: bool, force=None):
     c["nonlinear"] = force.get("nonlinear", rng.random() < 0.3)
     c["T"] = force.get("T", rng.choice([1, 1, 2, 3, 5, 8] + ([20] if quick else [20, 50, 50])))
     c["k"] = force.get("k", rng.choice(K_CHOICES))
+    if c["filter"] == "ukf" and c["k"] == 0 and c["n"] == 3:
+        c["n"] = rng.choice([1, 2, 4, 5, 6])        # k = 0 coincides with the default 3 - n only for n = 3
     c["qr_mode"] = rng.choice(["call", "call", "ctor", "both"])
     c["t_mode"] = rng.choice(["none", "none", "tensor", "reset"])
     c["timevar"] = c["t_mode"] != "none" or rng.random() < 0.3
@@ -126,6 +128,8 @@ def tol_pair(info, eps, extra=1.0):
 def sym_defect(P: torch.Tensor):
     """(asymmetry, most negative eigenvalue of the symmetric part)"""
     Pd = P.double()
+    if not bool(torch.isfinite(Pd).all()):
+        return float("inf"), float("-inf")
     asym = float((Pd - Pd.mT).abs().max()) if Pd.numel() else 0.0
     ev = torch.linalg.eigvalsh((Pd + Pd.mT) / 2)
     lam = float(ev.min()) if ev.numel() else 0.0
@@ -516,6 +520,9 @@ def run_pf_corr(ctx: Ctx, c, lines, metas):
         if j == 0:
             ctx.sample(dict(c), cap=10)
         x, P = x2.detach(), P2.detach()
+        if not bool(torch.isfinite(x).all() and torch.isfinite(P).all()):
+            ctx.fail(stepcase, f"raises: PF returned non-finite values at call {j} (N={N})")
+            break
     for mu in mon.mutations:
         ctx.fail(dict(c), f"mutation: {mu['function']} changed its argument {mu['argument']}")
 
@@ -703,33 +710,43 @@ def is_reference(c, d, fam, st, yl, xl, Pl, N):
 # ----------------------------------------------------------------------------- drivers of the streams
 
 def run(ctx: Ctx):
+    import time
     rng = ctx.rng
+    t0 = time.time()
     torch.set_num_threads(1)      # tiny matrices: thread hand-off costs more than the work
     lines, metas = [], []
-    n_runs = ctx.pick(120, 1600)
+    n_runs = ctx.pick(100, 1000)
     forced = [{"filter": "ekf", "nonlinear": False}, {"filter": "ukf", "nonlinear": False},
               {"filter": "ekf", "nonlinear": True}, {"filter": "ukf", "nonlinear": True},
               {"filter": "ukf", "nonlinear": False, "k": "none"}, {"filter": "ukf", "nonlinear": False, "k": "-n+0.5"},
               {"filter": "ekf", "nonlinear": False, "T": 20 if ctx.quick else 50},
               {"filter": "ukf", "nonlinear": False, "T": 20 if ctx.quick else 50}]
+    # on affine systems the UKF result does not depend on k (theorem), so the handling of k is only visible on
+    # non-linear members: one short non-linear run per k choice
+    forced += [{"filter": "ukf", "nonlinear": True, "k": kc, "T": 2, "dtype": "float64"} for kc in K_CHOICES]
     for i in range(n_runs):
         c = gen_run(rng, ctx.quick, forced[i] if i < len(forced) else None)
         run_one(ctx, c, lines, metas)
+    t1 = time.time()
     # PF with recorded draws
     plines, pmetas = [], []
-    for i in range(ctx.pick(40, 400)):
+    for i in range(ctx.pick(30, 300)):
         run_pf_corr(ctx, gen_pf(rng, False, ctx.quick), plines, pmetas)
+    t2 = time.time()
     # one batch through the model (fans out over processes), heavy PF lines first
     reps = ctx.driver.run(plines + lines)
     compare_pf(ctx, plines, pmetas, reps=reps[:len(plines)])
     compare_runs(ctx, lines, metas, reps=reps[len(plines):])
+    t3 = time.time()
     # PF statistics
     torch.set_num_threads(4)
     forced = [{"N": 1000, "nonlinear": False}, {"N": 10000, "nonlinear": False}, {"N": 100000, "nonlinear": False, "T": 1},
               {"N": 3000, "nonlinear": True}, {"N": 1000000, "dtype": "float64", "nonlinear": False, "T": 1}]
-    for i in range(ctx.pick(14, 160)):
+    for i in range(ctx.pick(12, 90)):
         run_pf_stat(ctx, gen_pf(rng, True, ctx.quick, forced[i] if i < len(forced) else None))
     f32_large(ctx)
+    t4 = time.time()
+    ctx.notes.append(f"wall: runs {t1 - t0:.1f}s, pf-corr {t2 - t1:.1f}s, model driver {t3 - t2:.1f}s, pf-stat {t4 - t3:.1f}s")
 
 
 def f32_large(ctx: Ctx):
